@@ -18,7 +18,8 @@ Link -> PHY:
   literal NXT throttle pattern; STP ends a transmission / commits a register write.
 PHY -> link (PHY-initiated operations, queued by the scenario director and optionally *triggered* by the
   phase of a link command so that DIR take-overs land inside register writes / before a TXCMD is accepted):
-  "rx" operations: DIR up (with NXT = receive start, or without), turnaround, RxCmds, data bytes throttled by
+  "rx" operations: DIR up (with NXT = receive start, or without), turnaround, RxCmds (none at all is allowed after a
+  DIR+NXT start: data may follow the turnaround cycle directly), data bytes throttled by
   RxCmds, end by RxCmd(RxActive=0) and/or DIR down; `keep_dir` chains the next operation without DIR falling.
 """
 
@@ -67,7 +68,9 @@ def otg_ctrl_value(c):
 def compile_rx(op, cont=False):
     """ rx operation -> list of frames (dir, nxt, data, tag).  tags: ta, rxcmd, data, ta_out.
         op: {"start": "nxt"|"rxcmd"|"none", "ta": byte, "status": byte (RxEvent bits ignored), "pre": [bytes],
-             "start_cmds": n>=1, "data": hex, "gaps": [n per byte], "mid": [bytes], "error_at": i|None,
+             "start_cmds": n>=1 (n>=0 for a DIR+NXT start: 0 = the first data byte follows the turnaround cycle
+                           directly, ULPI 1.1 3.8.2.4 -- DIR rising with NXT already tells the link a receive started),
+             "data": hex, "gaps": [n per byte], "mid": [bytes], "error_at": i|None,
              "end": "dir"|"rxcmd", "post": [bytes], "keep_dir": bool} """
     frames = []
     start = op.get("start", "none")
@@ -79,7 +82,7 @@ def compile_rx(op, cont=False):
         frames.append((1, 1 if start == "nxt" else 0, op.get("ta", 0) & 0xFF, "ta"))
     pre = [b & 0xCF | (b & 0x20) for b in op.get("pre", [])]          # RxActive clear; HostDisconnect (10) allowed
     if start == "nxt":
-        for _ in range(max(1, op.get("start_cmds", 1))):
+        for _ in range(max(0, op.get("start_cmds", 1))):
             frames.append((1, 0, active, "rxcmd"))
     elif start == "rxcmd":
         for b in pre:
